@@ -816,9 +816,9 @@ class VM:
             obj = self.stack.pop()
             if obj is UNDEFINED or obj is NULL:
                 keys = []
-            elif isinstance(obj, JSArray):
-                # For arrays, iterate over numeric indices as strings
-                keys = [str(i) for i in range(len(obj._elements))]
+            elif isinstance(obj, (JSArray, JSTypedArray)):
+                # For (typed) arrays, iterate over numeric indices as strings
+                keys = [str(i) for i in range(obj.length)]
                 # Also include any non-numeric properties
                 keys.extend(obj.keys())
             elif isinstance(obj, JSObject):
